@@ -1,6 +1,6 @@
 use num::pow::Pow;
 
-use crate::generator::error::GeneratorError;
+use crate::generator::error::{GeneratorError, GeneratorErrorType};
 
 use super::{
     types::{BitString, Choice, Optionality, SequenceOrSet},
@@ -134,7 +134,7 @@ pub fn value_to_tokens(value: &ASN1Value) -> Result<String, GeneratorError> {
         ASN1Value::BitStringNamedBits(_) => Err(GeneratorError {
             top_level_declaration: None,
             details: "Named bits should be resolved by this point!".into(),
-            kind: crate::prelude::GeneratorErrorType::Unidentified,
+            kind: GeneratorErrorType::Unidentified,
         }),
         ASN1Value::BitString(b) => {
             let value = b.chunks(8).fold(String::new(), |mut value, bits| {
@@ -187,7 +187,11 @@ pub fn value_to_tokens(value: &ASN1Value) -> Result<String, GeneratorError> {
                 s.pop();
                 s + "\""
             }),
-        ASN1Value::Time(_) => todo!(),
+        ASN1Value::Time(_) => Err(GeneratorError::new(
+            None,
+            "TIME values are currently unsupported!",
+            GeneratorErrorType::NotYetInplemented,
+        )),
         ASN1Value::LinkedArrayLikeValue(seq) => seq
             .iter()
             .try_fold(String::from("["), |mut acc, v| {
@@ -210,7 +214,11 @@ pub fn value_to_tokens(value: &ASN1Value) -> Result<String, GeneratorError> {
             value,
         } => Ok(value.to_string()),
         ASN1Value::LinkedCharStringValue(_, value) => Ok(format!(r#""{value}""#)),
-        ASN1Value::All => todo!(),
+        ASN1Value::All => Err(GeneratorError::new(
+            None,
+            "ALL values are currently unsupported!",
+            GeneratorErrorType::NotYetInplemented,
+        )),
     }
 }
 
